@@ -3,9 +3,9 @@ CONSTANTS t1 = t1 t2 = t2 t3 = t3
 CONSTANT Threads <- TH
 CONSTANT Obs = {1, 2}
 CONSTANT MaxOps = 2
-CONSTANT Weak = "unsubscribe"
-CONSTANT OneShots = {}
-CONSTANT NotifyLock = "Read"
+CONSTANT Weak = "none"
+CONSTANT OneShots = {1}
+CONSTANT NotifyLock = "Write"
 CONSTANT Removal = "inline"
 INVARIANTS NoCallAfterUnsubscribe NoDeadlock ListWriteExclusive NoUseAfterFree OneShotOnce
 PROPERTY NoWriteDuringDelivery
